@@ -29,7 +29,7 @@
 //               autocompact   maxLogSizeBytes = 1: every write compacts inline; 14-operation sub-alphabet, depth 3 / 4
 //   Built with -DC12_DEEP (second part, thorough tier only, no ASan => ~3x cheaper executions):
 //               hist_d4          all 44 operations, depth 4
-//               hist_reduced_d5  the first 15 operations of the sub-alphabet, depth 5
+//               hist_reduced_d5  the 18-operation sub-alphabet, depth 5
 // Part (ii) "race_*": the tick thread / eviction worker vs a writer re-setting the same key (plain, TTL,
 //   remove) vs a reader, all interleavings within the deviation bounds (P preemptions, T timer deviations,
 //   S non-default successors).  Every read must be legal for the old or the new reference state of that key
@@ -72,7 +72,12 @@ using Bytes = std::vector<std::uint8_t>;
 namespace
 {
 constexpr int64_t SEC = 1000000000ll;
-std::string g_scratchBase; // <verif>/build/scratch/C12/<pid of the harness process>
+// Scratch directories of this harness process, removed at exit (and by the next run if this one is killed):
+//   g_scratchBase  <verif>/build/scratch/C12/<pid>   on the disk: used for the 100 MiB values
+//   g_fastBase     /dev/shm/verif-C12/<pid>          tmpfs, when available: everything else.  Measured on the shared
+//                  sandbox: file create/rename/unlink on the (busy) ext4 disk cost 4-5x the rest of an execution.
+//                  C12_SCRATCH=<dir> forces one location for both.
+std::string g_scratchBase, g_fastBase;
 
 // ---------------------------------------------------------------- small helpers
 std::string show(const std::string &s)
@@ -843,7 +848,7 @@ void apply(World &w, const Op &o0)
 std::unique_ptr<World> makeWorld(uint32_t cacheSize, uint32_t maxLog = 10 * 1024 * 1024)
 {
   auto w = std::make_unique<World>();
-  w->dir = g_scratchBase + "/" + std::to_string(getpid());
+  w->dir = (maxLog == 0xffffffffu ? g_scratchBase : g_fastBase) + "/" + std::to_string(getpid());
   rmTree(w->dir);
   mkdirP(w->dir);
   w->path = w->dir + "/store.bin";
@@ -944,7 +949,7 @@ void buildAlphabets()
   ALPHA_FULL.push_back(mkBatch({{"a", B2}}, 20));
 
   // reduced alphabet (a subset of the full one) for more depth: one value per writer.  The first 14 operations are
-  // the quick tier's alphabet, the first 15 the depth-5 alphabet.
+  // the quick tier's alphabet.
   ALPHA_DEEP.push_back(mk(O_SET, "a", "x"));
   ALPHA_DEEP.push_back(mk(O_SET_TTL, "a", B2, 1));
   ALPHA_DEEP.push_back(mk(O_SET_TTL, "ab", "", 1));
@@ -1389,30 +1394,39 @@ int main(int argc, char **argv)
     if (std::string(argv[i]) == "--replay" && vr::readFile(argv[i + 1]).find("tier=thorough") != std::string::npos)
       thorough = true; // the tier of the recorded case decides depths and bounds
   }
-  // scratch root next to the executable: <verif>/build/scratch/C12/<pid>
+  // scratch roots (see g_scratchBase / g_fastBase)
   {
     char exe[4096];
     ssize_t n = readlink("/proc/self/exe", exe, sizeof exe - 1);
     std::string e = n > 0 ? std::string(exe, size_t(n)) : std::string();
     size_t k = e.rfind("/build/bin/");
     std::string buildDir = k != std::string::npos ? e.substr(0, k) + "/build" : std::string("/verif/build");
-    const std::string root = getenv("C12_SCRATCH") ? std::string(getenv("C12_SCRATCH")) : buildDir + "/scratch/C12";
-    g_scratchBase = root + "/" + std::to_string(getpid());
-    // remove what an earlier, killed run left behind (directories named after process ids that no longer exist)
-    if (DIR *d = opendir(root.c_str()))
+    const char *forced = getenv("C12_SCRATCH");
+    const std::string diskRoot = forced ? std::string(forced) : buildDir + "/scratch/C12";
+    std::string fastRoot = diskRoot;
+    if (!forced && access("/dev/shm", W_OK | X_OK) == 0)
+      fastRoot = "/dev/shm/verif-C12";
+    for (const std::string &root : {diskRoot, fastRoot})
     {
-      std::vector<std::string> stale;
-      while (dirent *e = readdir(d))
+      // remove what an earlier, killed run left behind (directories named after process ids that no longer exist)
+      if (DIR *d = opendir(root.c_str()))
       {
-        long pid = atol(e->d_name);
-        if (pid > 0 && kill(pid_t(pid), 0) != 0 && errno == ESRCH)
-          stale.push_back(root + "/" + e->d_name);
+        std::vector<std::string> stale;
+        while (dirent *de = readdir(d))
+        {
+          long pid = atol(de->d_name);
+          if (pid > 0 && kill(pid_t(pid), 0) != 0 && errno == ESRCH)
+            stale.push_back(root + "/" + de->d_name);
+        }
+        closedir(d);
+        for (auto &p : stale)
+          rmTree(p);
       }
-      closedir(d);
-      for (auto &p : stale)
-        rmTree(p);
     }
+    g_scratchBase = diskRoot + "/" + std::to_string(getpid());
+    g_fastBase = fastRoot + "/" + std::to_string(getpid());
     mkdirP(g_scratchBase);
+    mkdirP(g_fastBase);
   }
   auto envInt = [](const char *n, int d)
   {
@@ -1440,11 +1454,11 @@ int main(int argc, char **argv)
   const char *part = "C12_kvstore_deep";
   const int depthFull = envInt("C12_DEPTH", 4);
   const int depthDeep = envInt("C12_DEPTH_DEEP", 5);
-  histScn("hist_d4", [=]() { history(ALPHA_FULL, depthFull, 1, U, PFX); }, 70);
+  histScn("hist_d4", [=]() { history(ALPHA_FULL, depthFull, 1, U, PFX); }, 65);
   {
-    // depth 5 over the first 15 operations of the reduced alphabet (without remove, setBatch+ttl and clear)
-    std::vector<Op> alpha(ALPHA_DEEP.begin(), ALPHA_DEEP.begin() + 15);
-    histScn("hist_reduced_d5", [=]() { history(alpha, depthDeep, 1, U, PFX); }, 30);
+    // depth 5 over the whole reduced alphabet (18 operations)
+    std::vector<Op> alpha(ALPHA_DEEP.begin(), ALPHA_DEEP.end());
+    histScn("hist_reduced_d5", [=]() { history(alpha, depthDeep, 1, U, PFX); }, 35);
   }
   (void)thorough;
 #else
@@ -1470,9 +1484,9 @@ int main(int argc, char **argv)
     "boundary",
     [=]()
     { history(ALPHA_BOUNDARY, depthBoundary, 1, {KEY_MAX, KEY_BIN, KEY_OVER}, {"", std::string("\xfe", 1), std::string("\0", 1), KEY_MAX}); },
-    3);
+    thorough ? 10 : 6);
   histScn(
-    "bigvalue", [=]() { history(ALPHA_BIG, depthBig, 1, {"a"}, {"", "a"}, 0xffffffffu); }, thorough ? 20 : 6);
+    "bigvalue", [=]() { history(ALPHA_BIG, depthBig, 1, {"a"}, {"", "a"}, 0xffffffffu); }, thorough ? 60 : 20);
   v.back().exec_timeout_s = 300;
   histScn("cache0", [=]() { history(ALPHA_CACHE0, 2, 0, {"a", "ab"}, {"", "a"}); }, 1);
   for (const RaceScn &s : RACES)
@@ -1494,9 +1508,10 @@ int main(int argc, char **argv)
   }
 #endif
   int rc = mc_main(argc, argv, part, v);
-  rmTree(g_scratchBase);
+  for (const std::string &base : {g_scratchBase, g_fastBase})
   {
-    std::string root = g_scratchBase.substr(0, g_scratchBase.rfind('/'));
+    rmTree(base);
+    std::string root = base.substr(0, base.rfind('/'));
     ::rmdir(root.c_str()); // only succeeds when no other run is using it
   }
   return rc;
